@@ -13,7 +13,7 @@ import (
 // optional Map hops in front. Every top-level and nested Publish call is checked against the
 // delivery rule of the property.
 
-var behaviours = []string{"none", "unsub-self", "unsub-next", "unsub-prev", "sub-new", "publish-nested"}
+var behaviours = []string{"none", "unsub-self", "unsub-next", "unsub-prev", "sub-new", "publish-nested", "unsub-stale+self"}
 
 type seqLog struct {
 	ev []string
@@ -66,6 +66,9 @@ func (w *seqWorld) onNext(i, v int) {
 	w.armed[i] = false
 	switch w.beh[i] {
 	case "unsub-self":
+		w.unsubscribe(i)
+	case "unsub-stale+self": // first a handle that is not registered (never was / already removed), then itself
+		w.p.Unsubscribe(&fpgo.Subscription[int]{OnNext: func(int) {}})
 		w.unsubscribe(i)
 	case "unsub-next":
 		w.unsubscribe((i + 1) % w.n)
@@ -277,7 +280,7 @@ func reentrant(r *lib.Report, tier string) (int64, int64, []interface{}) {
 	rec(0)
 	// wider subscriber lists (4-6 subscribers, all registered, then two publishes): every vector of
 	// removal behaviours, so that several removals fall into one Publish at every position
-	wide := []string{"none", "unsub-self", "unsub-next", "unsub-prev"}
+	wide := []string{"none", "unsub-self", "unsub-next", "unsub-prev", "unsub-stale+self"}
 	for n := 4; n <= 6; n++ {
 		if n == 6 && tier != "thorough" {
 			break
